@@ -5,4 +5,5 @@ import "github.com/magisterquis/curlrevshell/verifharness/props/c20"
 func init() {
 	registry["C20"] = prop{level: c20.Level, run: c20.Run, racePkgs: []string{"curlrevshell", "lib/opshell", "internal/hsrv"}}
 	children["c20bind"] = c20.ChildBind
+	children["c20tty"] = c20.ChildTTY
 }
